@@ -272,6 +272,21 @@ def spec(op, st, alt):
         outs.append((size < 0, FAIL))
         # sizes above 8 are outside the bound of this reference
         return outs
+    if op in ("OP_LSHIFT", "OP_RSHIFT"):
+        # x n -- x shifted by n bits as a big-endian bit string of unchanged length (logical shift); negative n fails
+        if not need(2):
+            return [(T, FAIL)]
+        k = num(st[-1])
+        x = list(st[-2])
+        L = len(x)
+        if L == 0:
+            return [(k < 0, FAIL), (k >= 0, ok(seqs[:-2] + [("bytes", [])], aseqs))]
+        xs = z3.Concat(*x) if L > 1 else x[0]
+        amt = z3.Extract(8 * L - 1, 0, k) if 8 * L <= BW else z3.ZeroExt(8 * L - BW, k)
+        sh = (xs << amt) if op == "OP_LSHIFT" else z3.LShR(xs, amt)
+        res = z3.If(k >= bv(8 * L), z3.BitVecVal(0, 8 * L), sh)
+        out = [z3.Extract(8 * (L - i) - 1, 8 * (L - i - 1), res) for i in range(L)]
+        return [(k < 0, FAIL), (k >= 0, ok(seqs[:-2] + [("bytes", out)], aseqs))]
     if op == "OP_INVERT":
         return [(T, ok(seqs[:-1] + [S([~b for b in st[-1]])], aseqs))] if need(1) else [(T, FAIL)]
     if op in ("OP_AND", "OP_OR", "OP_XOR"):
@@ -309,13 +324,13 @@ def spec(op, st, alt):
 
 CLAIMED = ["OP_0", "OP_1NEGATE"] + [f"OP_{i}" for i in range(1, 17)] + [
     "OP_NOP", "OP_VERIFY", "OP_RETURN", "OP_TOALTSTACK", "OP_FROMALTSTACK", "OP_IFDUP", "OP_DEPTH", "OP_DROP", "OP_DUP", "OP_NIP", "OP_OVER", "OP_PICK", "OP_ROLL", "OP_ROT", "OP_SWAP", "OP_TUCK",
-    "OP_2DROP", "OP_2DUP", "OP_3DUP", "OP_2OVER", "OP_2ROT", "OP_2SWAP", "OP_CAT", "OP_SPLIT", "OP_NUM2BIN", "OP_BIN2NUM", "OP_SIZE", "OP_INVERT", "OP_AND", "OP_OR", "OP_XOR", "OP_EQUAL", "OP_EQUALVERIFY",
+    "OP_2DROP", "OP_2DUP", "OP_3DUP", "OP_2OVER", "OP_2ROT", "OP_2SWAP", "OP_CAT", "OP_SPLIT", "OP_NUM2BIN", "OP_BIN2NUM", "OP_SIZE", "OP_INVERT", "OP_AND", "OP_OR", "OP_XOR", "OP_LSHIFT", "OP_RSHIFT", "OP_EQUAL", "OP_EQUALVERIFY",
     "OP_1ADD", "OP_1SUB", "OP_NEGATE", "OP_ABS", "OP_NOT", "OP_0NOTEQUAL", "OP_ADD", "OP_SUB", "OP_MUL", "OP_DIV", "OP_MOD", "OP_BOOLAND", "OP_BOOLOR", "OP_NUMEQUAL", "OP_NUMEQUALVERIFY", "OP_NUMNOTEQUAL",
     "OP_LESSTHAN", "OP_GREATERTHAN", "OP_LESSTHANOREQUAL", "OP_GREATERTHANOREQUAL", "OP_MIN", "OP_MAX", "OP_WITHIN", "OP_RIPEMD160", "OP_SHA1", "OP_SHA256", "OP_HASH160", "OP_HASH256", "OP_CODESEPARATOR",
     "OP_NOP1", "OP_NOP4", "OP_NOP5", "OP_NOP6", "OP_NOP7", "OP_NOP8", "OP_NOP9", "OP_NOP10", "OP_VER", "OP_VERIF", "OP_VERNOTIF", "OP_RESERVED", "OP_RESERVED1", "OP_RESERVED2"]
 
 ARITY = {"OP_2ROT": 6, "OP_2OVER": 4, "OP_2SWAP": 4, "OP_ROT": 3, "OP_3DUP": 3, "OP_WITHIN": 3}
-for _o in ("OP_SWAP", "OP_OVER", "OP_NIP", "OP_TUCK", "OP_2DROP", "OP_2DUP", "OP_PICK", "OP_ROLL", "OP_CAT", "OP_SPLIT", "OP_NUM2BIN", "OP_AND", "OP_OR", "OP_XOR", "OP_EQUAL", "OP_EQUALVERIFY",
+for _o in ("OP_SWAP", "OP_OVER", "OP_NIP", "OP_TUCK", "OP_2DROP", "OP_2DUP", "OP_PICK", "OP_ROLL", "OP_CAT", "OP_SPLIT", "OP_NUM2BIN", "OP_AND", "OP_OR", "OP_XOR", "OP_LSHIFT", "OP_RSHIFT", "OP_EQUAL", "OP_EQUALVERIFY",
            "OP_ADD", "OP_SUB", "OP_MUL", "OP_DIV", "OP_MOD", "OP_BOOLAND", "OP_BOOLOR", "OP_NUMEQUAL", "OP_NUMEQUALVERIFY", "OP_NUMNOTEQUAL", "OP_LESSTHAN", "OP_GREATERTHAN", "OP_LESSTHANOREQUAL",
            "OP_GREATERTHANOREQUAL", "OP_MIN", "OP_MAX"):
     ARITY[_o] = 2
